@@ -636,12 +636,28 @@ def _generate(seed, tier):
         for j in range(0, len(ps), 40):
             lines = [probe(i + 1, mode, 0, code, desc, leak=leak) for i, (mode, code, desc, leak) in enumerate(ps[j:j + 40])]
             add(lines, 'hidden-via-native', fn=fn['name'], safe=1)
-    # 3. every type as constructor
+    # 3. every type as constructor: VMOps::ConstructorCall has no sandbox test, so EVERY live type (enumerated from the running
+    #    process) is constructed - and its temporary destroyed - inside sandboxed frames, without and with arguments, through every
+    #    entry point, also below an outer script frame; besides the deep snapshots the harness compares the PROCESS-GLOBAL
+    #    singletons and registries (Application / IcingaApplication / ApiListener instance, shutdown / restart flags, loggers,
+    #    type and event-queue registries, dependency graph, per-type object counts): any difference = changed:construct:<Type>
     lines = []
+    CT_MODES = ('console', 'filter', 'event', 'inbox', 'filterperm')
+    CT_ARGS = [(0, ''), (1, '1'), (2, '"a", 1')]
     for i, t in enumerate(types):
-        mode = ('console', 'filter', 'event')[(i + seed) % 3]
-        lines.append(probe(2 * i + 1, mode, 1, 'Types.%s(%s)\n0' % (t['name'], M), 'kind=ctor ty=%s' % hx(t['name'])))
-        lines.append(probe(2 * i + 2, mode, 0, 'Json.encode(Types.%s())' % t['name'] if mode == 'console' else 'Types.%s()' % t['name'], 'kind=ctor ty=%s' % hx(t['name'])))
+        mode = CT_MODES[(i + seed) % 5]
+        desc = 'kind=ctor ty=%s' % hx(t['name'])
+        lines.append(probe(len(lines) + 1, mode, 1, 'Types.%s(%s)\n0' % (t['name'], M), desc))
+        k = 0
+        for n, al in CT_ARGS:
+            for form in ('Types.%s(%s)', '[ Types.%s(%s) ].len()', 'typeof(Types.%s(%s))'):
+                k += 1
+                modes = CT_MODES if tier != 'quick' else (CT_MODES[(i + k + seed) % 5], CT_MODES[(i + k + seed + 2) % 5])
+                for mode in modes:
+                    call = form % (t['name'], al)
+                    code = 'Json.encode(%s)' % call if mode == 'console' else call
+                    outer = (i + k + len(lines)) % 3
+                    lines.append(probe(len(lines) + 1, mode, 0, code, desc + ' nargs=%d restore=1%s' % (n, ' outer=%d' % outer if outer else '')))
     for j in range(0, len(lines), 20):
         add(lines[j:j + 20], 'constructor')
     # 4. every no_user_view field of every type with a live object
@@ -785,6 +801,9 @@ def classify(case, detail, impl_lines):
         return 'const-in-sandbox'
     if clause == 'hidden' and what == 'global:TicketSalt':
         return 'ticketsalt-global-readable'
+    # Application::~Application() resets the process-global instance: only the singleton section differs, only for that type
+    if clause == 'changed' and what == 'construct:IcingaApplication' and d.get('diff', '') == '~singletons':
+        return 'application-dtor-resets-instance'
     if clause == 'hidden' and what.startswith('retobj:') and mode == 'console':
         return 'console-returns-hidden-fields'
     return '%s:%s' % (clause, what)
